@@ -65,7 +65,9 @@ def xcorrel(arr1, arr2):
         arr1, arr2 = _parse_yxp(arr1, arr2)
     except FoundError as ex:
         return ex.err
-    return np.corrcoef(arr1, arr2)[0, 1]
+    with np.errstate(divide='ignore', invalid='ignore'):
+        r = np.corrcoef(arr1, arr2)[0, 1]
+    return Error.errors['#DIV/0!'] if np.isnan(r) else r
 
 
 FUNCTIONS['CORREL'] = wrap_func(xcorrel)
